@@ -6,10 +6,10 @@ def run(tier):
     params = {"W": 2, "K": 1, "preempt": 1} if q else {"W": 2, "K": 2, "preempt": 2}
     pk = "internal/vkgo/pkg/semaphore"
     c.run_pkg(REPO, "./" + pk, os.path.join(REPO, pk), "semaphore", [os.path.join(VERIF, "harness/semaphore/zz_verif_c42.go")], "^VerifC42Steps$", params=params,
-              max_models=8 if q else 30, wall="120s" if q else "3600s", soft_trunc="record")
+              max_models=8 if q else 30, wall="120s" if q else "3600s", soft_trunc="record", extra_flags=["-solver", "cvc5-int"])
     c.run_pkg(REPO, "./" + pk, os.path.join(REPO, pk), "semaphore", [os.path.join(VERIF, "harness/semaphore/zz_verif_c42.go")], "^VerifC42Racy$", params=params,
-              max_models=0, wall="120s" if q else "3600s", soft_trunc="record")
+              max_models=0, wall="120s" if q else "3600s", soft_trunc="record", extra_flags=["-solver", "cvc5-int"])
     c.assumptions += ["cooperative scheduler: goroutines interleave only at synchronisation operations (mutex, channel, select) — exact for code that follows its lock discipline; data races are outside (WaitEmpty reads size unlocked and is not one of the property's operations)",
-                      "weights and sizes range over all values in [0, 2^40)", "context cancellation is a harness context whose Done channel is closed by the harness",
+                      "weights and sizes range over all values in [0, 2^40)", "primary solver of this check: cvc5 1.0 --incremental --solve-bv-as-int=sum (exact integer encoding of the 64-bit arithmetic; bit-blasting solvers time out on the sums of weights)", "context cancellation is a harness context whose Done channel is closed by the harness",
                       "at most `preempt` involuntary context switches per path; VerifC42Racy is checked in the engine only (a native run cannot be forced onto a given schedule)"]
     return c.finish(bounds=params, outside=["more than W concurrent waiters / K operations", "more preemptions than the bound", "WaitEmpty", "data races"])
